@@ -65,7 +65,7 @@ Definition fmt_dom (k : cfg) (s0 : str) : bool :=
   let budget := (allowed_length k - Z.of_N (more_reserve k))%Z in
   words_ok k && nonempty s0 && allc no1 s0 && munged s0 && c_mores k && (1 <=? c_maximum k) &&
   (4 + Z.of_N (more_reserve k) <=? allowed_length k)%Z && (allowed_length k <=? line_room k)%Z &&
-  match parse text with Ok (_, mx) => (Z.of_N mx <=? budget)%Z | Raise _ => false end &&
+  match parse text with Ok (_, mx) => (Z.of_N mx + 4 <=? budget)%Z | Raise _ => false end &&
   safe_cuts text budget &&
   match reply_chunks k s0 with Ok chunks => (length chunks <=? 100)%nat | Raise _ => true end.
 
@@ -105,12 +105,12 @@ Proof.
       apply payload_good; try assumption. lia.
     - destruct (parse text) as [[cF mx]|] eqn:Ep; [|discriminate]. apply Z.leb_le in Hmx.
       pose proof (fmt_chunk_fits text _ cF mx chunks Htne Htm Ep Hmx Hsafe Hc) as Hf.
-      pose proof (fmt_visible_text text _ chunks Htne Htm Hsafe Hc) as Hv.
+      pose proof (fmt_visible_text text _ cF mx chunks Htne Htm Ep Hmx Hsafe Hc) as Hv.
       (* the raw chunks, to know that the processed ones are non-empty and free of \x01 *)
       pose proof Hc as Hw. unfold wrap, wrap_w in Hw. rewrite Ep in Hw. cbn [bind snd] in Hw.
       destruct (byteTextWrap (split_chunks text) _) as [raw|] eqn:Eb; [|discriminate]. cbn [bind] in Hw.
       pose proof (process_wrapped raw None chunks Hw) as Hwr.
-      pose proof (byteTextWrap_nonnil text _ raw Htne Eb) as Hnn'.
+      pose proof (byteTextWrap_nonnil text (allowed_length k - Z.of_N (more_reserve k) - Z.of_N mx) raw ltac:(lia) Htne Eb) as Hnn'.
       pose proof (byteTextWrap_allc no1 eq_refl text _ raw Ht1 Eb) as H1raw.
       assert (Hshape : Forall (fun c => allc no1 c = true /\ c <> []) chunks).
       { clear - Hwr Hnn' H1raw. induction Hwr as [|r o raw ls Hro _ IH]; [constructor|].
